@@ -55,8 +55,9 @@ PROPS = {
     "C14": {"theorems": props_theorems("C14") + T("KtVerif.Props.FloatLemmas", ["fmt6_length", "f64Div_le_one"]), "partial": []},
     "C06": {"theorems": props_theorems("C06"), "partial": []},
     "C07": {"theorems": props_theorems("C07") + C01_CORE + TIE_KMER, "partial": []},
+    "C10": {"theorems": props_theorems("C10", "C10sched") + T("KtVerif.Props.C09", ["minimisers_eq_specRuns", "minimisers_no_placeholder"]) + TIE_MIN + TIE_LETTERS, "partial": []},
     "C09": {"theorems": props_theorems("C09", "C09b") + TIE_MIN, "partial": []},
     "C18": {"theorems": props_theorems("C18") + TIE_KMIN + TIE_MIN, "partial": []},
 }
 
-HOOK_COMMITS = ["2bee093", "c72f01b", "6f8e937"]
+HOOK_COMMITS = ["2bee093", "c72f01b", "6f8e937", "f388698", "6674084"]
